@@ -613,3 +613,94 @@ def check_const_subscripts(ctx, unit, classes, rule="B1.const-subscript"):
                              ok, n.loc, "index %d, extent %d%s (instantiation %s)" % (c, ext[bp[-1]], ", address only" if under_addr else "", rec["qn"]), f)
             if cnt == 0:
                 ctx.broken("%s: no constant subscripts found" % rec["qn"])
+
+
+# ---- small_vector: inline / heap selection ---------------------------------------------------------
+
+def check_small_vector_selection(ctx, unit, cls="frg::small_vector", rule="E.inline-heap-predicate"):
+    ctx.rule(rule, "small_vector decides inline vs. heap storage by one predicate of _capacity alone: _get_container() "
+             "returns the heap pointer only when it is false, and the destructor deallocates only when it is false", 3)
+    for rec in recs_of(unit, cls):
+        fns = cls_fns(unit, rec["qn"])
+        pred = [f for f in fns if f.name == "_is_small"]
+        if not pred:
+            raise AnalysisBroken("anchor vanished: %s::_is_small" % rec["qn"])
+        for f in pred:
+            reads = {n.m for n in f.events() if n.kind == "MemberExpr" and n.get("mk") == "Field"}
+            ctx.inst(rule, "%s::_is_small%s" % (cls, " const" if f.get("const") else ""), reads == {"_capacity"}, f.loc,
+                     "predicate reads fields %s (instantiation %s)" % (sorted(reads), rec["qn"]), f)
+
+        def under_not_small(f, node_id):
+            for cond, truth in flow.facts_at(f, node_id):
+                c, t = cond.strip(), truth
+                while c.kind == "UnaryOperator" and c.op == "!":
+                    c, t = c.children[0].strip(), not t
+                if c.kind == "CXXMemberCallExpr" and c.callee and c.callee["n"] == "_is_small" and t is False:
+                    return True
+            return False
+        for f in fns:
+            if f.name == "_get_container":
+                for r in f.return_nodes():
+                    v = r.child("val")
+                    p = path(v) if v is not None else None
+                    if p == ("this", "_elements"):
+                        ctx.inst(rule, "%s::_get_container%s: heap arm" % (cls, " const" if f.get("const") else ""),
+                                 under_not_small(f, r.id), r.loc, "heap pointer returned under !_is_small()", f)
+                    else:
+                        small = any(c.strip().kind == "CXXMemberCallExpr" and c.strip().callee["n"] == "_is_small" and t
+                                    for c, t in flow.facts_at(f, r.id))
+                        ctx.inst(rule, "%s::_get_container%s: inline arm" % (cls, " const" if f.get("const") else ""),
+                                 small, r.loc, "inline buffer returned under _is_small()", f)
+            if f.kind == "dtor":
+                for n in free_calls(f):
+                    ctx.inst(rule, "%s::~: deallocate" % cls, under_not_small(f, n.id), n.loc,
+                             "heap buffer released only under !_is_small()", f)
+
+
+# ---- O7: no use after destroy / free ------------------------------------------------------------------
+
+def check_no_use_after_release(ctx, unit, fns, rule="O7.no-use-after-release"):
+    """After frg::destruct(a, x) / a.free(x) / a.deallocate(x, n) with x a local pointer, x is not
+    dereferenced or passed on until it is reassigned."""
+    for f in fns:
+        rel = []
+        for n in free_calls(f):
+            a = n.args[0] if n.kind == "CXXMemberCallExpr" else (n.args[1] if len(n.args) > 1 else None)
+            if a is None:
+                continue
+            v = std_unwrap(a)
+            if v.kind == "DeclRefExpr" and v.get("local") and v.get("dk") == "Var":
+                rel.append((n, v.d["d"], v.n))
+        if not rel:
+            continue
+        rel.sort(key=lambda x: x[0].loc)
+        for i, (call, did, name) in enumerate(rel):
+            bad = []
+
+            def transfer(m, s, call=call, did=did):
+                if m.id == call.id:
+                    return ["dead"]
+                if s != "dead":
+                    return [s]
+                w = write_of(m)
+                if w and w[0] and len(w[0]) == 1 and w[0][0].endswith("#%d" % did):
+                    return ["live"]
+                if m.kind == "DeclStmt" and any(d["d"] == did for d in m.get("decls", [])):
+                    return ["live"]
+                if m.kind == "MemberExpr":
+                    p = path(m)
+                    if p and len(p) > 1 and p[0].endswith("#%d" % did) and m.get("arrow"):
+                        bad.append("field %s read through the released pointer at %s" % (p[-1], m.loc))
+                if m.kind == "UnaryOperator" and m.op == "*":
+                    p = path(m.children[0])
+                    if p and len(p) == 1 and p[0].endswith("#%d" % did):
+                        bad.append("released pointer dereferenced at %s" % m.loc)
+                if m.is_call() and m.id != call.id:
+                    for a in m.args:
+                        v = std_unwrap(a)
+                        if v.kind == "DeclRefExpr" and v.d["d"] == did:
+                            bad.append("released pointer passed to %s at %s" % (canon(m)[:40], m.loc))
+                return [s]
+            flow.run(f, ["live"], transfer, None)
+            ctx.inst(rule, "%s: release #%d of %s" % (f.sig, i + 1, name), not bad, call.loc,
+                     "; ".join(sorted(set(bad))) if bad else "no access through the pointer after its release", f)
